@@ -516,6 +516,17 @@ def execute(case, se, out, trace):
                 raise V("parameterisation", ["stale", name], "after %s, point(%s) of the path is %r but a fresh copy of the same path gives %r: the path object does not trace its own (reversed) geometry" % (name, t, ob.pt(got), ob.pt(want)))
         else:
             out.count("probe:path-point-checked")
+        try:
+            bb_want = fresh.bbox()
+        except Exception:
+            bb_want = "unavailable"
+        if bb_want != "unavailable":
+            try:
+                bb_got = P.bbox()
+            except Exception as e:
+                raise V("parameterisation", ["bbox-raises", type(e).__name__, name], "after %s, bbox() of the path raised %r while a fresh copy answers %r" % (name, e, bb_want))
+            if not ob.close_val(bb_got, bb_want, 1e-9, 1e-9 * scale_now):
+                raise V("parameterisation", ["bbox", name], "after %s, bbox() of the path is %r but a fresh copy of the same path gives %r" % (name, bb_got, bb_want))
         # (e) involution
         if last_rev is not None and last_rev[0] == handle:
             compare(canon_form(P, False), last_rev[1], V, name + "-twice", what="original")
